@@ -11,6 +11,10 @@ CONSTANTS
   WtKinds = {"none", "const", "gen"}
   ExtraNodes <- Extra0
   NodeSize = 2
+  Scenario = "single"
+  PrepDepth = 0
+  OtherDegs <- DegsQ
+  OtherMaxNpts = 4
 INVARIANT WellFormed
 PROPERTY FailedIsNoOp
 
